@@ -228,7 +228,10 @@ func (c *FnCtx) addEdge(bc *blockCtx, from, to *ssa.BasicBlock, cond string, rr 
 			return
 		}
 		if li == rr.skipHdr {
-			*rr.backs = append(*rr.backs, edgeIn{bc.st.clone(), full})
+			bs := bc.st.clone()
+			// ghost updates at the latch count as modifications of the loop body
+			c.runGhostAtState(bc.fr, bs, Anchor{Kind: "latch", Loop: li.ord})
+			*rr.backs = append(*rr.backs, edgeIn{bs, full})
 			return
 		}
 		c.backEdge(bc, li, full, rr)
